@@ -312,9 +312,9 @@ def run(ctx, replay=None):
                                              'trusted_base': common.TRUSTED_BASE, 'explanation': 'build failed'}, [])
         return
     po = common.proof_obligations(ctx.prop)
-    ck = common.coqchk(ctx.prop) if ctx.tier == 'thorough' else None
-    if ck is not None and not ck['ok']:
-        path = common.write_replay(ctx, 'coqchk', {'kind': 'coqchk-failed', 'summary': ck['summary']})
+    chk_res = common.coqchk(ctx.prop) if ctx.tier == 'thorough' else None
+    if chk_res is not None and not chk_res['ok']:
+        path = common.write_replay(ctx, 'coqchk', {'kind': 'coqchk-failed', 'summary': chk_res['summary']})
         common.violation(ctx, path, found_input=False)
     bad = common.hygiene()
     n_obl = len(po['theorems'])
@@ -375,7 +375,7 @@ def run(ctx, replay=None):
         'checker_cmd': 'coqc %s %s  (after ./build.sh)' % (' '.join(common.COQFLAGS), po['file']),
         'trusted_base': common.TRUSTED_BASE + [
             'Print Assumptions: ' + '; '.join('%s: %s' % (t, po['assumptions'].get(t, 'NOT PRINTED')) for t in po['theorems'])],
-        'coqchk': ({'axioms': ck['axioms'], 'ok': ck['ok']} if ck else 'thorough tier only'), 'theorems': po['theorems'], 'hygiene_hits': bad,
+        'coqchk': ({'axioms': chk_res['axioms'], 'ok': chk_res['ok']} if chk_res else 'thorough tier only'), 'theorems': po['theorems'], 'hygiene_hits': bad,
         'evaluations': stats['variants'], 'distinct_nontrivial': len({terms.to_coq(progs[res['idx']]) for res in live}),
         'rule': 'one evaluation = one variant (3 well-behaved namings, 2 adversarial namings, up to 2 declaration orders, 1 rerun after unrelated problems) '
                 'of a small problem from seed %d, built, initialised, solved and enumerated by the real library; distinct_nontrivial counts distinct base problems '
